@@ -1120,18 +1120,18 @@ class P(Prop):
             depth = rng.choice([3, 6, 10, 20, 40])
             out.append({"kind": "rand", "n": n, "ops": self.gen_history(rng, n, depth, None, False)})
         # every special name as a user feature: all write paths and all read paths under it
-        for _ in range(2600 if q else 20000):
+        for _ in range(3500 if q else 20000):
             n = rng.choice([1, 2, 2, 3, 3, 4])
             depth = rng.choice([2, 4, 8, 14, 25])
             pool = self.rand_pool(rng)
             out.append({"kind": "names", "n": n, "pool": pool, "ops": self.gen_history(rng, n, depth, pool, rng.random() < 0.4)})
         # the wider operator alphabet on ordinary names (operators that raise mid-way included)
-        for _ in range(2600 if q else 20000):
+        for _ in range(3500 if q else 20000):
             n = rng.choice([1, 2, 2, 3, 3, 4, 5])
             depth = rng.choice([2, 4, 8, 14, 25])
             out.append({"kind": "rich", "n": n, "pool": ["a", "b", "c"], "ops": self.gen_history(rng, n, depth, ["a", "b", "c"], True)})
         # tracks that receive their table from another track: copy(), extract, slice, +
-        for _ in range(700 if q else 5000):
+        for _ in range(900 if q else 5000):
             out.append(self.gen_carry(rng))
         # malformed stream: a list initialiser shorter than the track, as the LAST call (Python raises mid-way
         # and leaves a misaligned table when the name is new: class 'short-list-initialiser')
